@@ -109,7 +109,7 @@ func (l c18wl) Failed(_ services.State, _ error) { l.s.pk.poke() }
 
 func c18Closure(g c18graph, from int) map[int]bool { return c18Reach(g.deps, from) }
 
-func newC18sys(g c18graph, cfg c18cfg, targets []int) (*c18sys, string) {
+func newC18sys(g c18graph, cfg c18cfg, targets []int, calls [][]int) (*c18sys, string) {
 	s := &c18sys{g: g, mods: map[int]*c18mod{}, pk: make(poker, 1)}
 	s.lg = &c18logger{last: map[int][2]string{}, pk: s.pk}
 	var initLog []int
@@ -118,16 +118,10 @@ func newC18sys(g c18graph, cfg c18cfg, targets []int) (*c18sys, string) {
 		s.mods[i] = &c18mod{idx: i, inner: c}
 		return c.svc
 	}
-	var calls [][]int
-	for m, ds := range g.deps {
-		if len(ds) > 0 {
-			calls = append(calls, append([]int{m}, ds...))
-		}
-	}
 	mm, _ := c18BuildL(s.lg, g.n, cfg, calls, &initLog, mk)
 	tn := make([]string, len(targets))
 	for i, t := range targets {
-		tn[i] = c18Name(t)
+		tn[i] = c18NameS(cfg.names, t)
 	}
 	sm, err := mm.InitModuleServices(tn...)
 	if err != nil {
@@ -413,11 +407,17 @@ func (s *c18sys) cleanup() {
 	// inner services created by initFn for modules that got no wrapper do not exist: nothing else to stop
 }
 
-func c18RunCase(g c18graph, cfg c18cfg, targets []int, r *rng, steps int) []string {
-	head := g.String() + ";" + cfg.String() + ";" + ints(targets)
+func c18RunCase(g0 c18graph, cfg c18cfg, targets []int, r *rng, steps int) []string {
+	return c18RunCaseCalls(g0, cfg, targets, r, steps, c18CallsFor(g0, r))
+}
+
+func c18RunCaseCalls(g0 c18graph, cfg c18cfg, targets []int, r *rng, steps int, calls [][]int) []string {
+	// the dependency lists in the order the AddDependency calls leave them; naming scheme in the head
+	g := c18Applied(g0.n, calls)
+	head := g.String() + ";" + cfg.String() + ";" + ints(targets) + ";" + strconv.Itoa(cfg.names)
 	tr := newTrack("C18.run", head)
 	defer tr.done()
-	s, errs := newC18sys(g, cfg, targets)
+	s, errs := newC18sys(g, cfg, targets, calls)
 	if s == nil {
 		return []string{"C18.run", head, "-", errs}
 	}
@@ -523,6 +523,20 @@ func runC18Run(e *env) {
 			}
 		})
 	}
+	// hubs with spare capacity in their dependency slice (see c18Star), many naming schemes
+	type starJob struct {
+		g     c18graph
+		calls [][]int
+		names int
+		seed  uint64
+	}
+	var stars []starJob
+	for rep := 0; rep < 6*e.scale; rep++ {
+		for _, kt := range [][2]int{{3, 1}, {5, 2}, {5, 3}, {6, 2}, {7, 1}, {3, 0}} {
+			g, calls := c18Star(r, kt[0], kt[1])
+			stars = append(stars, starJob{g, calls, 1 + r.intn(200), r.u64()})
+		}
+	}
 	for len(jobs) < n {
 		nn := 2 + r.intn(6)
 		g := c18RandomDAG(r, nn)
@@ -540,6 +554,19 @@ func runC18Run(e *env) {
 		jobs = append(jobs, job{g, cfg, targets, r.u64(), 6 + r.intn(8*nn)})
 	}
 	// cases are run on a bounded pool; each case has its own PRNG stream, output in job order
+	outS := parallelMap(len(stars), c17Workers(), func(i int) []string {
+		j := stars[i]
+		cfg := c18FullCfg(j.g.n)
+		cfg.names = j.names
+		all := make([]int, j.g.n)
+		for k := range all {
+			all[k] = k
+		}
+		return c18RunCaseCalls(j.g, cfg, all, &rng{s: j.seed}, 6+3*j.g.n, j.calls)
+	})
+	for _, f := range outS {
+		e.emit(f...)
+	}
 	out := parallelMap(len(jobs), c17Workers(), func(i int) []string {
 		j := jobs[i]
 		return c18RunCase(j.g, j.cfg, j.targets, &rng{s: j.seed}, j.steps)
